@@ -108,7 +108,7 @@ def interpret(conds):
                     c["variants"] &= {"Suspend"}
             elif d[0] == "call" and d[1] == "<%s as std::cmp::PartialEq>::eq" % ST:
                 ag = find_agg(d[2], ST)
-                if ag and contains(d[2], "coroutine::state"):
+                if ag and contains(d[2], "Coroutine::state"):
                     if val:
                         c["variants"] &= {ag[2]}
                     else:
@@ -167,13 +167,13 @@ def table_rule(run, f):
     expect_cb = {"ready": "on_ready", "running": "on_running", "suspend": "on_suspend", "syscall": "on_syscall", "cancel": "on_cancel", "complete": "on_complete", "error": "on_error"}
     expect_args = {"suspend": [2, 3], "syscall": [2, 3, 4], "complete": [2], "error": [2], "ready": [], "running": [], "cancel": []}
     for fn in FNS:
-        b = need(run, rid, f, "coroutine::state::" + fn)
+        b = need(run, rid, f, "coroutine::korosensei::Coroutine::" + fn)
         if b is None:
             continue
         w = PathWalker(b)
 
         def stop(bid, t):
-            if t["k"] == "call" and norm(t.get("callee") or "").endswith("state::change_state"):
+            if t["k"] == "call" and norm(t.get("callee") or "").endswith("Coroutine::change_state"):
                 return ("change", describe_val(b, w.du, t["args"][1]), bid)
             if t["k"] == "return":
                 return ("return",)
@@ -213,7 +213,7 @@ def table_rule(run, f):
                 run.fail(rid, key, b.loc(), "state-machine row (%s, current=%s): code does %s, documented graph requires %s" % (fn, a, sorted(got), want))
         # after change_state: own callback exactly once on every path, then Ok
         cfg = Cfg(b)
-        cs = find_calls(b, callee_ends("state::change_state"))
+        cs = find_calls(b, callee_ends("Coroutine::change_state"))
         for (bid, t) in cs:
             cb = [(x, tt) for (x, tt) in find_calls(b, lambda c, tt: (tt.get("trait") or "").endswith("listener::Listener")) if x in cfg.reachable(cfg.after(bid))]
             names = sorted({norm(tt["orig"]).rsplit("::", 1)[1] for (_x, tt) in cb})
@@ -233,7 +233,7 @@ def table_rule(run, f):
 
 def change_state_rule(run, f):
     rid = "C07-REPORT-ONCE"
-    b = need(run, rid, f, "coroutine::state::change_state")
+    b = need(run, rid, f, "coroutine::korosensei::Coroutine::change_state")
     if b is None:
         return
     du = DefUse(b)
@@ -293,7 +293,7 @@ def sole_writer_rule(run, f):
                     if any(k[0].endswith("korosensei::Coroutine") for k in rk):
                         writers.add(b.npath)
                         run.fn(b)
-    want = {"coroutine::state::change_state"}
+    want = {"coroutine::korosensei::Coroutine::change_state"}
     if writers == want:
         run.ok(rid, "state-cell-writers", sorted(writers))
     else:
@@ -301,9 +301,9 @@ def sole_writer_rule(run, f):
     callers = set()
     for b in f.bodies:
         for (_bid, t) in b.calls():
-            if norm(t.get("callee") or "").endswith("coroutine::state::change_state"):
+            if norm(t.get("callee") or "").endswith("Coroutine::change_state"):
                 callers.add(b.npath)
-    allowed = {"coroutine::state::" + x for x in FNS}
+    allowed = {"coroutine::korosensei::Coroutine::" + x for x in FNS}
     if callers and callers <= allowed:
         run.ok(rid, "change_state-callers", sorted(callers))
     else:
@@ -337,7 +337,7 @@ def _fields_of(body, du, op, depth=6):
 
 def terminal_rule(run, f):
     rid = run.rule("C07-TERMINAL", "resume_with returns the stored terminal state without calling running()/raw_resume() when the coroutine is Complete or Error", floor=2, template="T2")
-    b = need(run, rid, f, "coroutine::resume_with")
+    b = need(run, rid, f, "coroutine::korosensei::Coroutine::resume_with")
     if b is None:
         return
     w = PathWalker(b)
@@ -345,7 +345,7 @@ def terminal_rule(run, f):
     def stop(bid, t):
         if t["k"] == "call":
             c = norm(t.get("callee") or "")
-            if c.endswith("coroutine::state::running") or c.endswith("::raw_resume"):
+            if c.endswith("Coroutine::running") or c.endswith("::raw_resume"):
                 return ("call", c.rsplit("::", 1)[1], bid)
         if t["k"] == "return":
             return ("return",)
@@ -370,7 +370,7 @@ def terminal_rule(run, f):
             run.ok(rid, "resume_with/" + term, "returns before running()/raw_resume()")
     # running() precedes raw_resume()
     cfg = Cfg(b)
-    r1 = [x for (x, t) in find_calls(b, callee_ends("coroutine::state::running"))]
+    r1 = [x for (x, t) in find_calls(b, callee_ends("Coroutine::running"))]
     r2 = [x for (x, t) in find_calls(b, callee_ends("::raw_resume"))]
     if r1 and r2 and all(any(cfg.dominates(a, x) for a in r1) for x in r2):
         run.ok(rid, "resume_with/running-before-raw_resume", None)
@@ -417,7 +417,7 @@ def yield_rule(run, f):
             t = b.blocks[bid]["term"]
             if t["k"] == "call":
                 c = norm(t.get("callee") or "")
-                if c.startswith("coroutine::state::") and c.rsplit("::", 1)[1] in trans:
+                if c.startswith("coroutine::korosensei::Coroutine::") and c.rsplit("::", 1)[1] in trans:
                     calls.append((c.rsplit("::", 1)[1], tuple(describe_val(b, w.du, a) for a in t["args"][1:])))
         rv = ret_variant(b, path)
         rows.setdefault((res_v, tuple(sorted(cur_v)) if res_v == ("Yield",) else None, cancel, ok_v), set()).add((tuple(c[0] for c in calls), rv))
